@@ -15,7 +15,7 @@ META = {
     "bounds": {
         "quick": "schedules of <= 7 steps, <= 3 elements, every template of C02 that can hold data after update() "
                  "returns + plain sinks; 1 counter per element; failing consumer at a symbolic position",
-        "thorough": "schedules of <= 9 steps, <= 4 elements, 2 counters per element",
+        "thorough": "schedules of <= 8 steps, <= 4 elements, 2 counters per element",
     },
     "outside": ["Dask scatter/gather (C20)", "the same counter attached to two elements"],
     "stubs": ["event loop + clock: engine/vloop.py"],
@@ -136,7 +136,7 @@ def templates(tier):
 
 def obligations(tier):
     q = tier == "quick"
-    steps = 7 if q else 9
+    steps = 7 if q else 8
     obls = []
     for sh in templates(tier):
         nm = "%s/n=%s/%s/%s/steps=%d" % (sh["template"], sh.get("n", "-"),
